@@ -39,7 +39,7 @@ theorem resolveCore_mono (D : Disk) (n : Nat) (st : St) (m : Mod) (mn : Option I
 theorem memoStore_mono (st : St) (o : Option Mod) (key : Entry) (r) : Mono st (memoStore st o key r) := by
   cases o with
   | none => exact Mono.refl _
-  | some o => exact updCached_mono _ _ _
+  | some o => exact updCached_mono st o (fun c => { c with refs := (key, r) :: c.refs })
 
 theorem resolve_mono (D : Disk) (n : Nat) (st : St) (o : Option Mod) (key : Entry) (m : Mod)
     (mn : Option Ident) (r) (st' : St) (h : resolve D n st o key m mn = .ok (r, st')) : Mono st st' := by
@@ -134,32 +134,18 @@ theorem follow_mono (D : Disk) : ∀ n st o e r st', follow D n st o e = .ok (r,
 /-- a module value is backed by an entry of the module cache -/
 def TargetIn (st : St) : Option Target → Prop
   | some (.module k) => (get st.mcache k).isSome = true
-  | some (.entry _ e) => e.isAbs = true
-  | none => True
+  | _ => True
 
 theorem TargetIn.keeps {st st' : St} {r : Option Target} (h : TargetIn st r) (hk : Keeps st st') : TargetIn st' r := by
   cases r with
   | none => trivial
   | some t => cases t with
     | module k => exact hk k h
-    | entry k e => exact h
+    | entry k e => trivial
 
-theorem lookupLast_mem : ∀ (t : Table) (x : Ident) (e : Entry), lookupLast x t = some e → e ∈ t
-  | [], _, _, h => by cases h
-  | e0 :: r, x, e, h => by
-    simp only [lookupLast] at h
-    cases hl : lookupLast x r with
-    | some e' =>
-      rw [hl] at h; simp only [Option.some.injEq] at h; subst h
-      exact List.mem_cons_of_mem _ (lookupLast_mem r x _ hl)
-    | none =>
-      rw [hl] at h; dsimp only at h
-      by_cases hn : e0.name = x
-      · simp only [hn, if_true, Option.some.injEq] at h; subst h; exact List.mem_cons_self
-      · simp [hn] at h
-
-theorem resolveCore_correct {E D : Disk} (hD : AbsDisk D) {n : Nat} {st : St} {m : Mod} {mn : Option Ident}
-    {r} {st' : St} (hc : Correct E st) (h : resolveCore D n st m mn = .ok (r, st')) (hag : AgreeOn st' D E) :
+theorem resolveCore_correct {E D : Disk} {n : Nat} {st : St} {m : Mod} {mn : Option Ident}
+    {r} {st' : St} (hc : Correct E st)
+    (h : resolveCore D n st m mn = .ok (r, st')) (hag : AgreeOn st' D E) :
     Correct E st' ∧ Keeps st st' ∧ Ev (fun n => pResolve E n m mn) r ∧ TargetIn st' r := by
   cases mn with
   | none =>
@@ -220,19 +206,56 @@ theorem resolveCore_correct {E D : Disk} (hD : AbsDisk D) {n : Nat} {st : St} {m
           obtain ⟨hc1, hk1, _, hno1⟩ := getModule_correct hc hgm (hag.mono (hm2.trans hm3))
           obtain ⟨hc2, hk2, hin, _⟩ := getModule_correct hc1 hgm2 (hag.mono hm3)
           obtain ⟨c, hcm⟩ := hin rfl
-          obtain ⟨hc3, hk3, t, hot, ⟨N, hN⟩, hta⟩ := scopeOf_correct E D hD n _ _ _ _ hc2 (by simp [hcm]) hsc hag
+          obtain ⟨hc3, hk3, t, hot, ⟨N, hN⟩⟩ := scopeOf_correct E D n _ _ _ _ hc2 (by simp [hcm]) hsc hag
           subst hot
           simp only [Except.ok.injEq, Prod.mk.injEq] at h
           obtain ⟨h1, _⟩ := h; subst h1
           refine ⟨hc3, hk1.trans (hk2.trans hk3), ⟨N, fun n hn => by simp [pResolve, hno1 rfl, hN n hn]⟩, ?_⟩
-          cases hl : lookupLast a t with
-          | none => trivial
-          | some e => exact hta e (lookupLast_mem t a e hl)
+          cases lookupLast a t <;> trivial
 
 theorem findRef_cons (key key' : Entry) (r : Option Target) (l) :
     findRef key ((key', r) :: l) = if key' = key then some r else findRef key l := rfl
 
-theorem resolve_correct {E D : Disk} (hD : AbsDisk D) {n : Nat} {st : St} {o : Option Mod} {x ln} {m : Mod}
+/-- storing a freshly computed, correct value in the `_ref` memo -/
+theorem memoStore_correct {E : Disk} {st : St} {o : Option Mod} {key : Entry} {r : Option Target}
+    (hc : Correct E st) (hin : TargetIn st r)
+    (h1 : ∀ x ln k mn, key = .imp x ln k mn → Ev (fun n => pResolve E n k mn) r)
+    (h2 : ∀ o' x ln up k mn, o = some o' → key = .rimp x ln up k mn →
+      Ev (fun n => pResolveR E n (dirOf (some o')) up k mn) r) :
+    Correct E (memoStore st o key r) := by
+  cases o with
+  | none => exact hc
+  | some o =>
+    refine correct_updCached (m := o) (g := fun c => { c with refs := (key, r) :: c.refs }) hc
+      (fun c0 _ => ⟨rfl, fun _ h => Or.inl h, ?_, ?_, ?_⟩)
+    · intro x' ln' k' mn' r' hr'
+      simp only [findRef_cons] at hr'
+      by_cases hkey : key = Entry.imp x' ln' k' mn'
+      · rw [if_pos hkey] at hr'
+        simp only [Option.some.injEq] at hr'; subst hr'
+        exact Or.inr (h1 _ _ _ _ hkey)
+      · rw [if_neg hkey] at hr'; exact Or.inl hr'
+    · intro key' k' hr'
+      simp only [findRef_cons] at hr'
+      by_cases hkey : key = key'
+      · rw [if_pos hkey] at hr'
+        simp only [Option.some.injEq] at hr'; subst hr'
+        exact Or.inr hin
+      · rw [if_neg hkey] at hr'; exact Or.inl hr'
+    · intro x' ln' up' k' mn' r' hr'
+      simp only [findRef_cons] at hr'
+      by_cases hkey : key = Entry.rimp x' ln' up' k' mn'
+      · rw [if_pos hkey] at hr'
+        simp only [Option.some.injEq] at hr'; subst hr'
+        exact Or.inr (h2 o _ _ _ _ _ rfl hkey)
+      · rw [if_neg hkey] at hr'; exact Or.inl hr'
+
+theorem memoStore_keeps (st : St) (o : Option Mod) (key : Entry) (r) : Keeps st (memoStore st o key r) := by
+  cases o with
+  | none => exact Keeps.refl _
+  | some o => exact keeps_updCached _ _ _
+
+theorem resolve_correct {E D : Disk} {n : Nat} {st : St} {o : Option Mod} {x ln} {m : Mod}
     {mn : Option Ident} {r} {st' : St}
     (hc : Correct E st) (h : resolve D n st o (.imp x ln m mn) m mn = .ok (r, st')) (hag : AgreeOn st' D E) :
     Correct E st' ∧ Keeps st st' ∧ Ev (fun n => pResolve E n m mn) r ∧ TargetIn st' r := by
@@ -255,7 +278,7 @@ theorem resolve_correct {E D : Disk} (hD : AbsDisk D) {n : Nat} {st : St} {o : O
         | none => trivial
         | some t => cases t with
           | module k => exact hc.modIn o c _ k hg hml
-          | entry k e => exact hc.refAbs o c _ k e hg hml
+          | entry k e => trivial
   | none =>
     rw [hml] at h; dsimp only at h
     cases hrc : resolveCore D n st m mn with
@@ -264,38 +287,77 @@ theorem resolve_correct {E D : Disk} (hD : AbsDisk D) {n : Nat} {st : St} {o : O
       obtain ⟨r1, st1⟩ := p
       rw [hrc] at h; simp only [Except.ok.injEq, Prod.mk.injEq] at h
       obtain ⟨h1, h2⟩ := h; subst h1; subst h2
-      obtain ⟨hc1, hk1, hev, hin⟩ := resolveCore_correct hD hc hrc (hag.mono (memoStore_mono _ _ _ _))
-      cases o with
-      | none => exact ⟨hc1, hk1, hev, hin⟩
-      | some o =>
-        refine ⟨correct_updCached (m := o)
-            (g := fun c => { c with refs := (Entry.imp x ln m mn, r1) :: c.refs }) hc1
-            (fun c0 _ => ⟨rfl, fun _ h => Or.inl h, ?_, ?_, ?_⟩),
-          hk1.trans (keeps_updCached _ _ _), hev, hin.keeps (keeps_updCached _ _ _)⟩
-        · intro x' ln' k' mn' r' hr'
-          simp only [findRef_cons] at hr'
-          by_cases hkey : Entry.imp x ln m mn = Entry.imp x' ln' k' mn'
-          · rw [if_pos hkey] at hr'
-            simp only [Entry.imp.injEq] at hkey
-            obtain ⟨_, _, hk, hmn⟩ := hkey
-            subst hk; subst hmn
-            simp only [Option.some.injEq] at hr'; subst hr'
-            exact Or.inr hev
-          · rw [if_neg hkey] at hr'; exact Or.inl hr'
-        · intro key' k' hr'
-          simp only [findRef_cons] at hr'
-          by_cases hkey : Entry.imp x ln m mn = key'
-          · rw [if_pos hkey] at hr'
-            simp only [Option.some.injEq] at hr'; subst hr'
-            exact Or.inr hin
-          · rw [if_neg hkey] at hr'; exact Or.inl hr'
-        · intro key' k' e' hr'
-          simp only [findRef_cons] at hr'
-          by_cases hkey : Entry.imp x ln m mn = key'
-          · rw [if_pos hkey] at hr'
-            simp only [Option.some.injEq] at hr'; subst hr'
-            exact Or.inr hin
-          · rw [if_neg hkey] at hr'; exact Or.inl hr'
+      obtain ⟨hc1, hk1, hev, hin⟩ := resolveCore_correct hc hrc (hag.mono (memoStore_mono _ _ _ _))
+      refine ⟨memoStore_correct hc1 hin ?_ ?_, hk1.trans (memoStore_keeps _ _ _ _), hev,
+        hin.keeps (memoStore_keeps _ _ _ _)⟩
+      · intro x' ln' k' mn' hkey
+        simp only [Entry.imp.injEq] at hkey
+        obtain ⟨_, _, hk, hmn⟩ := hkey
+        subst hk; subst hmn; exact hev
+      · intro o' x' ln' up' k' mn' _ hkey; cases hkey
+
+theorem resolveR_correct {E D : Disk} {n : Nat} {st : St} {o : Option Mod} {x ln up} {m : Mod}
+    {mn : Option Ident} {r} {st' : St}
+    (hc : Correct E st) (h : resolveR D n st o (.rimp x ln up m mn) up m mn = .ok (r, st'))
+    (hag : AgreeOn st' D E) :
+    Correct E st' ∧ Keeps st st' ∧ Ev (fun n => pResolveR E n (dirOf o) up m mn) r ∧ TargetIn st' r := by
+  unfold resolveR at h
+  cases hml : memoLookup st o (.rimp x ln up m mn) with
+  | some r0 =>
+    rw [hml] at h; simp only [Except.ok.injEq, Prod.mk.injEq] at h
+    obtain ⟨h1, h2⟩ := h; subst h1; subst h2
+    unfold memoLookup at hml
+    cases o with
+    | none => cases hml
+    | some o =>
+      dsimp only at hml
+      cases hg : get st.mcache o with
+      | none => rw [hg] at hml; cases hml
+      | some c =>
+        rw [hg] at hml; dsimp only at hml
+        refine ⟨hc, Keeps.refl _, hc.refsR o c x ln up m mn r0 hg hml, ?_⟩
+        cases r0 with
+        | none => trivial
+        | some t => cases t with
+          | module k => exact hc.modIn o c _ k hg hml
+          | entry k e => trivial
+  | none =>
+    rw [hml] at h; dsimp only at h
+    rcases hnr : normRef D st (dirOf o) up m with ⟨om, st0⟩
+    rw [hnr] at h
+    cases om with
+    | none =>
+      simp only [Except.ok.injEq, Prod.mk.injEq] at h
+      obtain ⟨h1, h2⟩ := h; subst h1; subst h2
+      obtain ⟨hc0, hk0, hpn⟩ := normRef_correct hc hnr (hag.mono (memoStore_mono _ _ _ _))
+      have hev : Ev (fun n => pResolveR E n (dirOf o) up m mn) none :=
+        ⟨0, fun n _ => by simp only [pResolveR, ← hpn]⟩
+      refine ⟨memoStore_correct hc0 trivial ?_ ?_, hk0.trans (memoStore_keeps _ _ _ _), hev, trivial⟩
+      · intro x' ln' k' mn' hkey; cases hkey
+      · intro o' x' ln' up' k' mn' ho hkey
+        simp only [Entry.rimp.injEq] at hkey
+        obtain ⟨_, _, hu, hk, hmn⟩ := hkey
+        subst hu; subst hk; subst hmn; subst ho; exact hev
+    | some m' =>
+      dsimp only at h
+      cases hrc : resolveCore D n st0 m' mn with
+      | error e => rw [hrc] at h; cases h
+      | ok p =>
+        obtain ⟨r1, st1⟩ := p
+        rw [hrc] at h; simp only [Except.ok.injEq, Prod.mk.injEq] at h
+        obtain ⟨h1, h2⟩ := h; subst h1; subst h2
+        have hm1 := resolveCore_mono D n st0 m' mn _ _ hrc
+        obtain ⟨hc0, hk0, hpn⟩ := normRef_correct hc hnr (hag.mono (hm1.trans (memoStore_mono _ _ _ _)))
+        obtain ⟨hc1, hk1, ⟨N, hN⟩, hin⟩ := resolveCore_correct hc0 hrc (hag.mono (memoStore_mono _ _ _ _))
+        have hev : Ev (fun n => pResolveR E n (dirOf o) up m mn) r1 :=
+          ⟨N, fun n hn => by simp only [pResolveR, ← hpn]; exact hN n hn⟩
+        refine ⟨memoStore_correct hc1 hin ?_ ?_, hk0.trans (hk1.trans (memoStore_keeps _ _ _ _)), hev,
+          hin.keeps (memoStore_keeps _ _ _ _)⟩
+        · intro x' ln' k' mn' hkey; cases hkey
+        · intro o' x' ln' up' k' mn' ho hkey
+          simp only [Entry.rimp.injEq] at hkey
+          obtain ⟨_, _, hu, hk, hmn⟩ := hkey
+          subst hu; subst hk; subst hmn; subst ho; exact hev
 
 /-- a module value is backed by an entry of the module cache -/
 def ValIn (st : St) : Val → Prop
@@ -308,73 +370,169 @@ theorem ValIn.keeps {st st' : St} {v : Val} (h : ValIn st v) (hk : Keeps st st')
   | obj p => trivial
   | nothing => trivial
 
-theorem follow_correct {E D : Disk} (hD : AbsDisk D) : ∀ n st o e r st', Correct E st → e.isAbs = true →
+/-- what `follow` does with the outcome of resolving an imported name -/
+def followK (D : Disk) (n : Nat) (o : Option Mod) (ln : Nat) :
+    Except Err (Option Target × St) → Except Err ((List Loc × Val) × St)
+  | .error e => .error e
+  | .ok (none, st1) => .ok (([(o, ln)], .nothing), st1)
+  | .ok (some (.module k), st1) => .ok (([(o, ln), (some k, 1)], .module k), st1)
+  | .ok (some (.entry k e), st1) =>
+    match follow D n st1 (some k) e with
+    | .error e => .error e
+    | .ok ((tr, v), st2) => .ok (((o, ln) :: tr, v), st2)
+
+theorem follow_imp (D : Disk) (n : Nat) (st : St) (o x ln m mn) :
+    follow D (n + 1) st o (.imp x ln m mn) = followK D n o ln (resolve D n st o (.imp x ln m mn) m mn) := by
+  simp only [follow, followK]
+  cases resolve D n st o (.imp x ln m mn) m mn with
+  | error e => rfl
+  | ok p =>
+    obtain ⟨tg, st1⟩ := p
+    cases tg with
+    | none => rfl
+    | some tg => cases tg <;> rfl
+
+theorem follow_rimp (D : Disk) (n : Nat) (st : St) (o x ln up m mn) :
+    follow D (n + 1) st o (.rimp x ln up m mn) =
+      followK D n o ln (resolveR D n st o (.rimp x ln up m mn) up m mn) := by
+  simp only [follow, followK]
+  cases resolveR D n st o (.rimp x ln up m mn) up m mn with
+  | error e => rfl
+  | ok p =>
+    obtain ⟨tg, st1⟩ := p
+    cases tg with
+    | none => rfl
+    | some tg => cases tg <;> rfl
+
+theorem followK_mono {D : Disk} {n : Nat} {o ln tg st1 r st'}
+    (h : followK D n o ln (.ok (tg, st1)) = .ok (r, st')) : Mono st1 st' := by
+  cases tg with
+  | none => simp only [followK, Except.ok.injEq, Prod.mk.injEq] at h; rw [← h.2]; exact Mono.refl _
+  | some tg =>
+    cases tg with
+    | module k => simp only [followK, Except.ok.injEq, Prod.mk.injEq] at h; rw [← h.2]; exact Mono.refl _
+    | entry k e =>
+      simp only [followK] at h
+      cases hf : follow D n st1 (some k) e with
+      | error e => rw [hf] at h; cases h
+      | ok q =>
+        obtain ⟨⟨tr, v⟩, st2⟩ := q
+        rw [hf] at h; simp only [Except.ok.injEq, Prod.mk.injEq] at h
+        rw [← h.2]; exact follow_mono D n _ _ _ _ _ hf
+
+theorem followK_correct {E D : Disk} {n : Nat} {o ln tg st1 r st'}
+    (ih : ∀ st o e r st', Correct E st → follow D n st o e = .ok (r, st') → AgreeOn st' D E →
+      Correct E st' ∧ Keeps st st' ∧ ValIn st' r.2)
+    (hc : Correct E st1) (hin : TargetIn st1 tg)
+    (h : followK D n o ln (.ok (tg, st1)) = .ok (r, st')) (hag : AgreeOn st' D E) :
+    Correct E st' ∧ Keeps st1 st' ∧ ValIn st' r.2 := by
+  cases tg with
+  | none =>
+    simp only [followK, Except.ok.injEq, Prod.mk.injEq] at h
+    obtain ⟨h1, h2⟩ := h; subst h1; subst h2
+    exact ⟨hc, Keeps.refl _, trivial⟩
+  | some tg =>
+    cases tg with
+    | module k =>
+      simp only [followK, Except.ok.injEq, Prod.mk.injEq] at h
+      obtain ⟨h1, h2⟩ := h; subst h1; subst h2
+      exact ⟨hc, Keeps.refl _, hin⟩
+    | entry k e =>
+      simp only [followK] at h
+      cases hf : follow D n st1 (some k) e with
+      | error e => rw [hf] at h; cases h
+      | ok q =>
+        obtain ⟨⟨tr, v⟩, st2⟩ := q
+        rw [hf] at h; simp only [Except.ok.injEq, Prod.mk.injEq] at h
+        obtain ⟨h1, h2⟩ := h; subst h1; subst h2
+        obtain ⟨a1, a2, a3⟩ := ih _ _ _ _ _ hc hf hag
+        exact ⟨a1, a2, a3⟩
+
+theorem follow_correct {E D : Disk} : ∀ n st o e r st', Correct E st →
     follow D n st o e = .ok (r, st') →
     AgreeOn st' D E → Correct E st' ∧ Keeps st st' ∧ ValIn st' r.2 := by
   intro n
   induction n with
-  | zero => intro st o e r st' _ _ h; simp [follow] at h
+  | zero => intro st o e r st' _ h; simp [follow] at h
   | succ n ih =>
-    intro st o e r st' hc he h hag
+    intro st o e r st' hc h hag
     cases e with
-    | rimp x ln up m mn => simp [Entry.isAbs] at he
     | own x ln p =>
       simp only [follow, Except.ok.injEq, Prod.mk.injEq] at h
       obtain ⟨h1, h2⟩ := h; subst h1; subst h2
       exact ⟨hc, Keeps.refl _, trivial⟩
     | imp x ln m mn =>
-      simp only [follow] at h
+      rw [follow_imp] at h
       cases hr : resolve D n st o (.imp x ln m mn) m mn with
       | error e => rw [hr] at h; cases h
       | ok p =>
         obtain ⟨tg, st1⟩ := p
         rw [hr] at h
-        cases tg with
-        | none =>
-          simp only [Except.ok.injEq, Prod.mk.injEq] at h
-          obtain ⟨h1, h2⟩ := h; subst h1; subst h2
-          obtain ⟨hc1, hk1, _, _⟩ := resolve_correct hD hc hr hag
-          exact ⟨hc1, hk1, trivial⟩
-        | some tg =>
-          cases tg with
-          | module k =>
-            simp only [Except.ok.injEq, Prod.mk.injEq] at h
-            obtain ⟨h1, h2⟩ := h; subst h1; subst h2
-            obtain ⟨hc1, hk1, _, hin⟩ := resolve_correct hD hc hr hag
-            exact ⟨hc1, hk1, hin⟩
-          | entry k e' =>
-            dsimp only at h
-            cases hf : follow D n st1 (some k) e' with
-            | error e => rw [hf] at h; cases h
-            | ok q =>
-              obtain ⟨⟨tr, v⟩, st2⟩ := q
-              rw [hf] at h; simp only [Except.ok.injEq, Prod.mk.injEq] at h
-              obtain ⟨h1, h2⟩ := h; subst h1; subst h2
-              obtain ⟨hc1, hk1, _, hin⟩ := resolve_correct hD hc hr (hag.mono (follow_mono D n _ _ _ _ _ hf))
-              obtain ⟨hc2, hk2, hv⟩ := ih _ _ _ _ _ hc1 hin hf hag
-              exact ⟨hc2, hk1.trans hk2, hv⟩
+        obtain ⟨hc1, hk1, _, hin⟩ := resolve_correct hc hr (hag.mono (followK_mono h))
+        obtain ⟨hc2, hk2, hv⟩ := followK_correct ih hc1 hin h hag
+        exact ⟨hc2, hk1.trans hk2, hv⟩
+    | rimp x ln up m mn =>
+      rw [follow_rimp] at h
+      cases hr : resolveR D n st o (.rimp x ln up m mn) up m mn with
+      | error e => rw [hr] at h; cases h
+      | ok p =>
+        obtain ⟨tg, st1⟩ := p
+        rw [hr] at h
+        obtain ⟨hc1, hk1, _, hin⟩ := resolveR_correct hc hr (hag.mono (followK_mono h))
+        obtain ⟨hc2, hk2, hv⟩ := followK_correct ih hc1 hin h hag
+        exact ⟨hc2, hk1.trans hk2, hv⟩
 
-theorem agreeOn_refl (st : St) (D : Disk) : AgreeOn st D D := fun _ _ => rfl
+theorem agreeOn_refl (st : St) (D : Disk) : AgreeOn st D D := ⟨fun _ _ => rfl, fun _ _ _ => rfl⟩
+
+theorem followK_agree {D : Disk} {n1 n2 : Nat} {o ln tg t1 t2 r1 r2 s1 s2}
+    (ih : ∀ n2 st1 st2 o e r1 r2 s1 s2, Correct D st1 → Correct D st2 →
+      follow D n1 st1 o e = .ok (r1, s1) → follow D n2 st2 o e = .ok (r2, s2) → r1 = r2)
+    (hc1 : Correct D t1) (hc2 : Correct D t2)
+    (h1 : followK D n1 o ln (.ok (tg, t1)) = .ok (r1, s1))
+    (h2 : followK D n2 o ln (.ok (tg, t2)) = .ok (r2, s2)) : r1 = r2 := by
+  cases tg with
+  | none =>
+    simp only [followK, Except.ok.injEq, Prod.mk.injEq] at h1 h2
+    rw [← h1.1, ← h2.1]
+  | some tg =>
+    cases tg with
+    | module k =>
+      simp only [followK, Except.ok.injEq, Prod.mk.injEq] at h1 h2
+      rw [← h1.1, ← h2.1]
+    | entry k e' =>
+      simp only [followK] at h1 h2
+      cases hf1 : follow D n1 t1 (some k) e' with
+      | error e => rw [hf1] at h1; cases h1
+      | ok q1 =>
+        cases hf2 : follow D n2 t2 (some k) e' with
+        | error e => rw [hf2] at h2; cases h2
+        | ok q2 =>
+          obtain ⟨⟨tr1, v1⟩, u1⟩ := q1
+          obtain ⟨⟨tr2, v2⟩, u2⟩ := q2
+          rw [hf1] at h1; rw [hf2] at h2
+          simp only [Except.ok.injEq, Prod.mk.injEq] at h1 h2
+          have := ih _ _ _ _ _ _ _ _ _ hc1 hc2 hf1 hf2
+          simp only [Prod.mk.injEq] at this
+          rw [← h1.1, ← h2.1, this.1, this.2]
 
 /-- two runs from correct states follow the same chain -/
-theorem follow_agree {D : Disk} (hD : AbsDisk D) : ∀ n1 n2 st1 st2 o e r1 r2 s1 s2, Correct D st1 →
-    Correct D st2 → e.isAbs = true →
+theorem follow_agree {D : Disk} : ∀ n1 n2 st1 st2 o e r1 r2 s1 s2, Correct D st1 →
+    Correct D st2 →
     follow D n1 st1 o e = .ok (r1, s1) → follow D n2 st2 o e = .ok (r2, s2) → r1 = r2 := by
   intro n1
   induction n1 with
-  | zero => intro n2 st1 st2 o e r1 r2 s1 s2 _ _ _ h; simp [follow] at h
+  | zero => intro n2 st1 st2 o e r1 r2 s1 s2 _ _ h; simp [follow] at h
   | succ n1 ih =>
-    intro n2 st1 st2 o e r1 r2 s1 s2 hc1 hc2 he h1 h2
+    intro n2 st1 st2 o e r1 r2 s1 s2 hc1 hc2 h1 h2
     cases n2 with
     | zero => simp [follow] at h2
     | succ n2 =>
       cases e with
-      | rimp x ln up m mn => simp [Entry.isAbs] at he
       | own x ln p =>
         simp only [follow, Except.ok.injEq, Prod.mk.injEq] at h1 h2
         rw [← h1.1, ← h2.1]
       | imp x ln m mn =>
-        simp only [follow] at h1 h2
+        rw [follow_imp] at h1 h2
         cases hr1 : resolve D n1 st1 o (.imp x ln m mn) m mn with
         | error e => rw [hr1] at h1; cases h1
         | ok p1 =>
@@ -384,33 +542,26 @@ theorem follow_agree {D : Disk} (hD : AbsDisk D) : ∀ n1 n2 st1 st2 o e r1 r2 s
             obtain ⟨tg1, t1⟩ := p1
             obtain ⟨tg2, t2⟩ := p2
             rw [hr1] at h1; rw [hr2] at h2
-            obtain ⟨hc1', _, hev1, hin1⟩ := resolve_correct hD hc1 hr1 (agreeOn_refl _ _)
-            obtain ⟨hc2', _, hev2, _⟩ := resolve_correct hD hc2 hr2 (agreeOn_refl _ _)
+            obtain ⟨hc1', _, hev1, _⟩ := resolve_correct hc1 hr1 (agreeOn_refl _ _)
+            obtain ⟨hc2', _, hev2, _⟩ := resolve_correct hc2 hr2 (agreeOn_refl _ _)
             have : tg1 = tg2 := hev1.unique hev2
             subst this
-            cases tg1 with
-            | none =>
-              simp only [Except.ok.injEq, Prod.mk.injEq] at h1 h2
-              rw [← h1.1, ← h2.1]
-            | some tg =>
-              cases tg with
-              | module k =>
-                simp only [Except.ok.injEq, Prod.mk.injEq] at h1 h2
-                rw [← h1.1, ← h2.1]
-              | entry k e' =>
-                dsimp only at h1 h2
-                cases hf1 : follow D n1 t1 (some k) e' with
-                | error e => rw [hf1] at h1; cases h1
-                | ok q1 =>
-                  cases hf2 : follow D n2 t2 (some k) e' with
-                  | error e => rw [hf2] at h2; cases h2
-                  | ok q2 =>
-                    obtain ⟨⟨tr1, v1⟩, u1⟩ := q1
-                    obtain ⟨⟨tr2, v2⟩, u2⟩ := q2
-                    rw [hf1] at h1; rw [hf2] at h2
-                    simp only [Except.ok.injEq, Prod.mk.injEq] at h1 h2
-                    have := ih _ _ _ _ _ _ _ _ _ hc1' hc2' hin1 hf1 hf2
-                    simp only [Prod.mk.injEq] at this
-                    rw [← h1.1, ← h2.1, this.1, this.2]
+            exact followK_agree ih hc1' hc2' h1 h2
+      | rimp x ln up m mn =>
+        rw [follow_rimp] at h1 h2
+        cases hr1 : resolveR D n1 st1 o (.rimp x ln up m mn) up m mn with
+        | error e => rw [hr1] at h1; cases h1
+        | ok p1 =>
+          cases hr2 : resolveR D n2 st2 o (.rimp x ln up m mn) up m mn with
+          | error e => rw [hr2] at h2; cases h2
+          | ok p2 =>
+            obtain ⟨tg1, t1⟩ := p1
+            obtain ⟨tg2, t2⟩ := p2
+            rw [hr1] at h1; rw [hr2] at h2
+            obtain ⟨hc1', _, hev1, _⟩ := resolveR_correct hc1 hr1 (agreeOn_refl _ _)
+            obtain ⟨hc2', _, hev2, _⟩ := resolveR_correct hc2 hr2 (agreeOn_refl _ _)
+            have : tg1 = tg2 := hev1.unique hev2
+            subst this
+            exact followK_agree ih hc1' hc2' h1 h2
 
 end SuppModel.Proj
